@@ -63,7 +63,8 @@ func C12(tier string) int {
 	return RunHX(HXCheck{
 		Prop: "C12", Level: "model_checking", Scopes: []string{"c12-flat", "c12-life", "c12-nested"},
 		Rule:        "breadth-first enumeration of all programs within the bound; at every transaction boundary the file is decoded by boltfmt (explicit little-endian offsets of the published version-2 layout, own FNV-1a) and its logical content must equal the reference model (which the API dump is compared with as well), both meta pages must validate with the right slot/txid parity, page size and flags; plus the golden-file corpus of the pinned build",
-		Assumptions: []string{"boltfmt shares no code with bbolt"},
+		Assumptions: []string{"boltfmt shares no code with bbolt", "golden corpus: /verif/golden, written once by the pinned build (./run golden)"},
+		Extra:       goldenCheck,
 		Quick:       100 * time.Second, Thorough: 25 * time.Minute,
 	}, tier)
 }
